@@ -195,6 +195,9 @@ func c15(r *Run) {
 			}
 		}
 	}
+	// descriptors of failed / abandoned dials (shared with C14.R1, C14.R4)
+	r.borrow([]string{"C14.R1:", "C14.R4:established-is-returned"}, "C14.R", "C15.R3.dial", func() { c14(r) })
+
 	// ---- R5 pool shrink / failed run close pollers ------------------------------------------------
 	{
 		run := w.MustFn("(*manager).Run")
